@@ -29,7 +29,8 @@ from jug.backends.dict_store import dict_store
 
 EVIDENCE = dict(
     level='proof',
-    rule='cases = random argument structures (depth <= 3, indices themselves arguments) over 4 base tasks + a mapped sequence with '
+    rule='cases = EVERY argument structure of <= 3 (quick) / 4 (thorough) nodes over 2 base tasks + a mapped sequence in 2 / 4 store states, '
+         'plus random argument structures (depth <= 3, indices themselves arguments) over 4 base tasks + a mapped sequence with '
          'per-block stored flags, a random subset of results stored; non-trivial = the argument contains a derived object '
          '(tasklet / mapped sequence or slice / wrapper) or a container of tasks; distinct = distinct (store, argument) literals; '
          'plus real `jug execute`/`jug invalidate` scenarios on a dict store',
@@ -298,7 +299,119 @@ def gen_scenario(ck, w, spec):
     return how, prefill, inv
 
 
+# ---------------------------------------------------------------- exhaustive small scope
+def enum_specs(max_size):
+    """every argument structure with at most max_size nodes over a fixed alphabet (2 base tasks, one
+    mapped sequence): leaves, tasklet forms over task-like bases, wrappers and containers"""
+    leaves_any = [('val', 1), ('val', 'a'), ('task', 0), ('task', 1), ('mapseq', 0), ('mapslice', 0, [(1, None, 2)]),
+                  ('nohash_task', 0), ('opaque', [0])]
+    anys = {1: leaves_any}
+    taskish = {1: [('task', 0), ('task', 1)]}
+    for n in range(2, max_size + 1):
+        t = []
+        for nb in range(1, n - 1):
+            for b in taskish[nb]:
+                for ix in anys[n - 1 - nb]:
+                    t.append(('getitem', b, ix))
+        for b in anys[n - 1]:
+            t.append(('fun', b, 'wrap'))
+            t.append(('fun', b, ('getcheck', 0, 2)))
+            t.append(('return_tuple', b, 2, 1))
+        for b in taskish[n - 1]:
+            t.append(('iteratetask', b, 2, 1))
+            t.append(('identity', b))
+        a = list(t)
+        for x in anys[n - 1]:
+            a.append(('custom', x))
+            a.append(('list', [x]))
+            a.append(('tuple', [x]))
+            a.append(('dict', [('a', x)]))
+        for nx in range(1, n - 1):
+            for x in anys[nx]:
+                for y in anys[n - 1 - nx]:
+                    a.append(('list', [x, y]))
+        taskish[n] = t
+        anys[n] = a
+    return [x for n in range(1, max_size + 1) for x in anys[n]]
+
+
+EXH_RESULTS = [{'a': [10, (20, 30)], 0: (1, 2), 1: 'z'}, 0]
+EXH_WORLDS = [
+    {'results': EXH_RESULTS, 'stored': [True, True], 'maps': [{'xs': [0, 1, 2, 3, 4], 'bs': 2, 'stored': [True, True, True]}]},
+    {'results': EXH_RESULTS, 'stored': [True, False], 'maps': [{'xs': [0, 1, 2, 3, 4], 'bs': 2, 'stored': [True, False, True]}]},
+    {'results': [[5, 6], 'a'], 'stored': [False, True], 'maps': [{'xs': [0, 1, 2, 3, 4], 'bs': 2, 'stored': [False, True, True]}]},
+    {'results': [(7, {'a': 8}), 1], 'stored': [True, True], 'maps': [{'xs': [0, 1, 2, 3, 4], 'bs': 2, 'stored': [True, True, False]}]},
+]
+
+
+# minimised past failures, run first in every tier and every exhaustive world
+CORPUS = [
+    # D20: _getitem.__call__ resolved its base's VALUE again and so loaded a Task object inside it
+    ('getitem', ('fun', ('nohash_task', 0), 'wrap'), ('val', 0)),
+    ('getitem', ('fun', ('nohash_task', 0), 'wrap'), ('val', 1)),
+    ('getitem', ('fun', ('nohash_task', 0), 'wrap'), ('task', 1)),
+    ('iteratetask', ('fun', ('nohash_task', 0), 'wrap'), 2, 1),
+    # D4 / D7 / D16: dependencies hidden behind a slice of a mapped sequence, a task-valued index, CustomHash
+    ('mapslice', 0, [(1, None, 2), (None, None, -1)]),
+    ('getitem', ('task', 0), ('task', 1)),
+    ('getitem', ('task', 0), ('getitem', ('task', 0), ('task', 1))),
+    ('custom', ('list', [('task', 1), ('getitem', ('task', 0), ('val', 'a'))])),
+    ('dict', [('a', ('custom', ('task', 0))), (0, ('fun', ('mapslice', 0, [(0, 3, None)]), 'wrap'))]),
+]
+
+
 # ---------------------------------------------------------------- the check
+class Collector:
+    def __init__(self, ck):
+        self.ck = ck
+        self.cases = []
+        self.meta = []
+
+    def case(self, w, spec, how, st_cache, family):
+        """direct oracles + one Coq case; returns (nontrivial?, added?)"""
+        ck = self.ck
+        try:
+            problems, info = check_case(w, spec, how)
+        except Exception as e:
+            ck.violation(replay_obj(w, spec, how, 'building the derived object or its consumer raised %s' % type(e).__name__, 'impl-violation',
+                                    {'error': repr(e)}))
+            return False, False
+        lit = w.lit(spec)
+        nontriv = any(x in lit for x in DERIVED_TAGS + ('AList', 'ATuple', 'ADict'))
+        for tag in DERIVED_TAGS:
+            if tag in lit:
+                ck.count('has:' + tag)
+        ck.count(family + ':' + spec[0])
+        ck.count('value:' + info['obs'][0])
+        ck.count('consumer:' + how)
+        for what, details in problems:
+            ck.violation(replay_obj(w, spec, how, what, 'impl-violation', dict(details, arg=lit)))
+        if info['oom']:
+            ck.count('outside-model(str index / bool index / return_tuple of dict)')
+            return nontriv, False
+        try:
+            obs_lit = outcome_lit(info['obs'], w)
+        except ValueError:
+            ck.count('skipped:unencodable')
+            return nontriv, False
+        if 'st' not in st_cache:
+            st_cache['st'] = w.st_literal()
+        st = st_cache['st']
+        ck.distinct((st, lit), nontriv)
+        # the model describes the argument; the consumer may embed it (keyword, nested containers): same walk
+        self.cases.append('(%s, %s, %s, %s)' % (st, lit, obs_lit, core.listlit(['%d%%positive' % w.tids(h) for h in info['deps']])))
+        self.meta.append(replay_obj(w, spec, how, '', 'correspondence',
+                                    {'arg': lit, 'store': st, 'observed': repr(info['obs']), 'deps': sorted(set(w.tids(h) for h in info['deps']))}))
+        return nontriv, True
+
+
+def check_store_keys(ck, w):
+    keys = set(w.store.list())
+    legit = set(t.hash() for t in w.all_tasks())
+    if not keys <= legit:
+        ck.violation({'kind': 'impl-violation', 'what': 'store contains a key that is not a task (a derived object was stored)', 'keys': repr(keys - legit)})
+
+
 def run(ck):
     ck.prove()
     ck.assumptions = ['task results are plain Python values (lists, tuples, dicts, atoms, slices); indexing INTO a str/bytes result, bool used as an '
@@ -307,55 +420,35 @@ def run(ck):
     nworlds = ck.n(300, 4000)
     per = 10
     nscen = ck.n(150, 2500)
-    cases, meta = [], []
+    col = Collector(ck)
     scen_pool = []
+    # ---- exhaustive: every structure of <= 3 (quick) / 4 (thorough) nodes, in worlds with different results missing
+    specs = enum_specs(ck.n(3, 4))
+    for desc in (EXH_WORLDS[:2] if ck.tier != 'thorough' else EXH_WORLDS):
+        w = depsgen.World(None, desc=desc)
+        cache = {}
+        for spec in CORPUS:
+            col.case(w, spec, 'nested', cache, 'corpus')
+        for spec in specs:
+            col.case(w, spec, 'pos', cache, 'exhaustive')
+        check_store_keys(ck, w)
+    ck.count('exhaustive-specs', len(specs))
+    # ---- random
     for wi in range(nworlds):
         w = depsgen.World(ck.rng, nbase=4, nmaps=1, stored_prob=ck.rng.choice([1.0, 0.85, 0.6]))
-        st = None
+        cache = {}
         for k in range(per):
             spec = w.gen_spec(3)
             how = ck.rng.choice(['pos', 'pos', 'pos', 'kw', 'nested'])
-            try:
-                problems, info = check_case(w, spec, how)
-            except Exception as e:
-                ck.violation(replay_obj(w, spec, how, 'building the derived object or its consumer raised %s' % type(e).__name__, 'impl-violation',
-                                        {'error': repr(e)}))
-                continue
-            lit = w.lit(spec)
-            nontriv = any(x in lit for x in DERIVED_TAGS + ('AList', 'ATuple', 'ADict'))
-            for tag in DERIVED_TAGS:
-                if tag in lit:
-                    ck.count('has:' + tag)
-            ck.count('spec:' + spec[0])
-            ck.count('value:' + info['obs'][0])
-            ck.count('consumer:' + how)
-            for what, details in problems:
-                ck.violation(replay_obj(w, spec, how, what, 'impl-violation', dict(details, arg=lit)))
-            if info['oom']:
-                ck.count('outside-model(str index / bool index / return_tuple of dict)')
-                continue
-            try:
-                obs_lit = outcome_lit(info['obs'], w)
-            except ValueError:
-                ck.count('skipped:unencodable')
-                continue
-            if st is None:
-                st = w.st_literal()
-            ck.distinct((st, lit), nontriv)
-            # the model describes the argument; the consumer may embed it (keyword, nested containers): same walk
-            cases.append('(%s, %s, %s, %s)' % (st, lit, obs_lit, core.listlit(['%d%%positive' % w.tids(h) for h in info['deps']])))
-            meta.append(replay_obj(w, spec, how, '', 'correspondence',
-                                   {'arg': lit, 'store': st, 'observed': repr(info['obs']), 'deps': sorted(set(w.tids(h) for h in info['deps']))}))
+            nontriv, added = col.case(w, spec, how, cache, 'spec')
             if nontriv and len(scen_pool) < 4 * nscen and ck.rng.random() < 0.5:
                 scen_pool.append((w.desc, spec))
         # ---- derived objects are never stored themselves
-        keys = set(w.store.list())
-        legit = set(t.hash() for t in w.all_tasks())
-        if not keys <= legit:
-            ck.violation({'kind': 'impl-violation', 'what': 'store contains a key that is not a task (a derived object was stored)', 'keys': repr(keys - legit)})
+        check_store_keys(ck, w)
+    cases, meta = col.cases, col.meta
     if meta:
         ck.sample({k: meta[len(meta) // 2][k] for k in ('arg', 'store', 'observed', 'deps')})
-        ck.sample({k: meta[len(meta) // 3][k] for k in ('arg', 'store', 'observed', 'deps')})
+        ck.sample({k: meta[(2 * len(meta)) // 3][k] for k in ('arg', 'store', 'observed', 'deps')})
     # ---- real jug execute / invalidate
     ck.rng.shuffle(scen_pool)
     for desc, spec in scen_pool[:nscen]:
